@@ -368,7 +368,17 @@ func richDrawCheck(w *harness.W, wc wcase, in []vaxis.Character, lines []line) {
 				continue
 			}
 			if col+c.Width > int(sf.Size.Width) && col == 0 && c.Width > wc.Width {
-				break // a single grapheme wider than the line cannot be shown
+				// a single grapheme wider than the line: its line is emitted
+				// and drawn all the same (the cell holds it, the renderer
+				// clips it)
+				if sf.Size.Width > 0 {
+					if cell := sf.Buffer[r*int(sf.Size.Width)]; cell.Grapheme != c.Grapheme {
+						w.Violation("rich-draw:row-content:over-wide-grapheme", fmt.Sprintf("row %d of RichText.Draw(%q, width %d) shows %q, the emitted line is the single grapheme %q", r, wc.Text, wc.Width, cell.Grapheme, c.Grapheme), wc, cell.Grapheme, c.Grapheme)
+						return
+					}
+					w.Count("over_wide_graphemes_drawn", 1)
+				}
+				break
 			}
 			if col+c.Width > int(sf.Size.Width) {
 				w.Violation("rich-draw:line-cut-off", fmt.Sprintf("row %d of RichText.Draw(%q, width %d): the surface is %d wide, %q of the emitted line would start at column %d", r, wc.Text, wc.Width, sf.Size.Width, c.Grapheme, col), wc, fmt.Sprint(sf.Size.Width), "a surface as wide as its widest line")
@@ -467,7 +477,14 @@ func drawCheck(w *harness.W, wc wcase, lines []line) {
 					w.Violation("draw:line-cut-off", fmt.Sprintf("row %d of Text.Draw(%q, width %d): the surface is %d wide, %q of the emitted line would start at column %d", r, wc.Text, wc.Width, s.Size.Width, c.Grapheme, col), wc, fmt.Sprint(s.Size.Width), "a surface as wide as its widest line")
 					return
 				}
-				break // a single grapheme wider than the line cannot be shown
+				if s.Size.Width > 0 {
+					if cell := s.Buffer[r*int(s.Size.Width)]; cell.Grapheme != c.Grapheme {
+						w.Violation("draw:row-content:over-wide-grapheme", fmt.Sprintf("row %d of Text.Draw(%q, width %d) shows %q, the emitted line is the single grapheme %q", r, wc.Text, wc.Width, cell.Grapheme, c.Grapheme), wc, cell.Grapheme, c.Grapheme)
+						return
+					}
+					w.Count("over_wide_graphemes_drawn", 1)
+				}
+				break
 			}
 			cell := s.Buffer[r*int(s.Size.Width)+col]
 			if cell.Grapheme != c.Grapheme {
